@@ -1038,8 +1038,58 @@ let run_c11 file =
   close_in ic;
   Printf.printf "SUMMARY cases=%d disagreements=%d impl_failures=%d impl_errors=0 operations=%d alias_facts=%d heap_cells=%d\n" !n !n_dis !n_fail !n_ops !n_alias !n_cells
 
+(* ---------- C12 ---------- *)
+let run_c12 file =
+  let n = ref 0 and n_dis = ref 0 and n_fail = ref 0 and n_res = ref 0 and n_races = ref 0 and n_threads = ref 0 in
+  let ic = open_in file in
+  let id = ref "" and cfg = ref None and refs = ref [] and fails = ref [] and mfails = ref [] and detail = ref [] and mode = ref "" in
+  (try
+     while true do
+       let line = input_line ic in
+       let t = Array.of_list (String.split_on_char ' ' line) in
+       match t.(0) with
+       | "ccase" -> id := t.(1); cfg := None; refs := []; fails := []; mfails := []; detail := []; mode := ""
+       | "hconfig" -> cfg := Some (heapify (parse_value t (ref 1)))
+       | "cmode" -> mode := unhexs t.(1)
+       | "cref" ->
+         refs := (unhexs t.(1), unhexs t.(2)) :: !refs;
+         (* the model's side: the packaging thread of this format, run alone to completion on the configuration's heap,
+            only ever writes cells of its own - the premise of the interleaving theorem *)
+         (match !cfg with
+          | Some (h, root) when !mode = "shared" || !mode = "gated-shared" ->
+            incr n_threads;
+            let th = t_init root (script_of true (OpPackage (unhex t.(1)))) in
+            if not (solo_private (nat_of_int (List.length h)) h th (nat_of_int 4000)) then
+              mfails := ("model-thread-not-private:" ^ unhexs t.(1)) :: !mfails
+          | _ -> ())
+       | "cres" ->
+         incr n_res;
+         let f = unhexs t.(3) and got = unhexs t.(4) in
+         let want = try List.assoc f !refs with Not_found -> "?" in
+         if got <> want then begin
+           fails := ("concurrent-differs-from-sequential:" ^ f) :: !fails;
+           detail := Printf.sprintf "round %s goroutine %s (%s): %s, sequentially %s" t.(1) t.(2) f got want :: !detail
+         end
+       | "cchild" -> fails := "child-process-failed" :: !fails; detail := unhexs t.(1) :: !detail
+       | "crace" ->
+         let k = int_of_string t.(1) in
+         n_races := !n_races + k;
+         if k > 0 then begin fails := "data-race" :: !fails; detail := (string_of_int k ^ " race report(s): " ^ unhexs t.(2)) :: !detail end
+       | "cend" ->
+         incr n;
+         if !fails <> [] || !mfails <> [] then begin
+           incr n_dis; if !fails <> [] then incr n_fail;
+           report !id false (List.sort_uniq compare !fails) (List.sort_uniq compare !mfails) (List.rev !detail)
+         end
+       | _ -> ()
+     done
+   with End_of_file -> ());
+  close_in ic;
+  Printf.printf "SUMMARY cases=%d disagreements=%d impl_failures=%d impl_errors=0 concurrent_results=%d race_reports=%d model_threads=%d\n" !n !n_dis !n_fail !n_res !n_races !n_threads
+
 let () =
   match Sys.argv with
+  | [| _; "C12"; file |] -> run_c12 file
   | [| _; "C11"; file |] -> run_c11 file
   | [| _; "C13"; file |] -> run_c13 file
   | [| _; "C05"; file |] -> let ic = open_in file in run_c05 ic; close_in ic
